@@ -5,6 +5,7 @@ package ports
 import (
 	"encoding/json"
 	"fmt"
+	"sync/atomic"
 
 	"github.com/sarchlab/akita/v5/hooking"
 	"github.com/sarchlab/akita/v5/messaging"
@@ -21,41 +22,41 @@ const portName = "Owner.P"
 type stubOwner struct {
 	hooking.HookableBase
 	*messaging.PortOwnerBase
-	recv, free int
-	badPort    int
+	recv, free atomic.Int64
+	badPort    atomic.Int64
 	port       messaging.Port
 }
 
 func (o *stubOwner) Name() string { return "Owner" }
 func (o *stubOwner) NotifyRecv(p messaging.Port) {
-	o.recv++
+	o.recv.Add(1)
 	if p != o.port {
-		o.badPort++
+		o.badPort.Add(1)
 	}
 }
 func (o *stubOwner) NotifyPortFree(p messaging.Port) {
-	o.free++
+	o.free.Add(1)
 	if p != o.port {
-		o.badPort++
+		o.badPort.Add(1)
 	}
 }
 
 // stubConn is the connection plugged into the port under test; it only counts.
 type stubConn struct {
 	hooking.HookableBase
-	send, available int
-	badPort         int
+	send, available atomic.Int64
+	badPort         atomic.Int64
 	port            messaging.Port
 }
 
 func (c *stubConn) Name() string            { return "Conn" }
 func (c *stubConn) PlugIn(p messaging.Port) { p.SetConnection(c) }
 func (c *stubConn) Unplug(messaging.Port)   {}
-func (c *stubConn) NotifySend()             { c.send++ }
+func (c *stubConn) NotifySend()             { c.send.Add(1) }
 func (c *stubConn) NotifyAvailable(p messaging.Port) {
-	c.available++
+	c.available.Add(1)
 	if p != c.port {
-		c.badPort++
+		c.badPort.Add(1)
 	}
 }
 
@@ -63,7 +64,6 @@ type portObj struct {
 	p     messaging.Port
 	owner *stubOwner
 	conn  *stubConn
-	nextI uint64
 }
 
 func newPortObj(ic, oc int) *portObj {
@@ -106,7 +106,7 @@ func refused(f func()) (res string) {
 // apply performs one operation and returns {val, need}: need is the subset of the
 // REQUIRED notifications (a.res.need) that were observed during the operation.
 func (o *portObj) apply(a map[string]any) any {
-	r0, f0, s0, a0 := o.owner.recv, o.owner.free, o.conn.send, o.conn.available
+	r0, f0, s0, a0 := o.owner.recv.Load(), o.owner.free.Load(), o.conn.send.Load(), o.conn.available.Load()
 	var v any
 	switch replay.Str(a["op"]) {
 	case "cansend":
@@ -143,10 +143,10 @@ func (o *portObj) apply(a map[string]any) any {
 		v = "unknown op"
 	}
 	seen := map[string]bool{
-		"recv":      o.owner.recv > r0,
-		"free":      o.owner.free > f0,
-		"send":      o.conn.send > s0,
-		"available": o.conn.available > a0,
+		"recv":      o.owner.recv.Load() > r0,
+		"free":      o.owner.free.Load() > f0,
+		"send":      o.conn.send.Load() > s0,
+		"available": o.conn.available.Load() > a0,
 	}
 	need := []string{}
 	if res, ok := a["res"].(map[string]any); ok {
@@ -158,7 +158,7 @@ func (o *portObj) apply(a map[string]any) any {
 			}
 		}
 	}
-	if o.owner.badPort+o.conn.badPort > 0 {
+	if o.owner.badPort.Load()+o.conn.badPort.Load() > 0 {
 		return map[string]any{"val": v, "need": need, "error": "notification carried a different port"}
 	}
 	return map[string]any{"val": v, "need": need}
